@@ -123,6 +123,8 @@ _TRACE = bool(_os.environ.get("PYVC_TRACE"))
 _STMT = bool(_os.environ.get("PYVC_STMT"))
 QUICK_TIMEOUT_MS = 20000
 Z3_FIRST_MS = 1500
+Z3_SECOND_MS = 7000
+CVC5_MS = 10000
 _PREFER = {}          # obligation name -> back end that discharged it last time (ordering hint only)
 FEAS_TIMEOUT_MS = 250
 
@@ -336,22 +338,30 @@ class Engine:
         quick = min(self.timeout_ms, Z3_FIRST_MS)
         backend = "z3"
         r = z3.unknown
-        if _PREFER.get(name) == "cvc5" and not _os.environ.get("PYVC_NO_SECOND"):
+        pref = _PREFER.get(name)
+        if pref == "cvc5" and not _os.environ.get("PYVC_NO_SECOND"):
             # this clause was last discharged by cvc5 after z3 gave up: ask cvc5 first
             st2, be2, dt2 = backends.second_opinion(self.facts, goal, min(self.timeout_ms, 5000))
             if st2 == "proved":
                 r = z3.unsat
                 backend = be2
+        elif pref == "z3-ematch" and not _os.environ.get("PYVC_NO_SECOND"):
+            if backends.run_z3_ematch(self.facts, goal, min(self.timeout_ms, 6000)) == "unsat":
+                r = z3.unsat
+                backend = "z3-ematch"
         if r != z3.unsat:
             s.set("timeout", quick)
             r = s.check()
             backend = "z3"
+            if r != z3.sat and r != z3.unsat and self.timeout_ms > Z3_SECOND_MS:
+                s.set("timeout", Z3_SECOND_MS)          # a second, longer z3 attempt before handing over to cvc5
+                r = s.check()
             if r != z3.sat and r != z3.unsat and not _os.environ.get("PYVC_NO_SECOND"):
-                st2, be2, dt2 = backends.second_opinion(self.facts, goal, self.timeout_ms)
+                st2, be2, dt2 = backends.second_opinion(self.facts, goal, min(self.timeout_ms, CVC5_MS))
                 if st2 == "proved":
                     r = z3.unsat
                     backend = be2
-                    _PREFER[name] = "cvc5"
+                    _PREFER[name] = be2
         if r != z3.sat and r != z3.unsat and self.timeout_ms > quick:
             s.set("timeout", self.timeout_ms)
             r = s.check()
